@@ -763,55 +763,126 @@ func c08R6(r *Report) {
 				_, ok := isStoreToField(i, errF)
 				return ok
 			}
-			// excuse: the edge on which the (possibly replaced) error is nil
-			var errNil ssa.Value
-			allInstrs(w, func(i2 ssa.Instruction) {
-				iff, ok := i2.(*ssa.If)
-				if !ok {
-					return
+			// the error of this write, as the code sees it later: the call's second result, the same value replaced by
+			// io.ErrShortWrite on some path (a phi, or the cell of a named result / local variable)
+			errv := extractOf(c, 1)
+			isShortGlobal := func(v ssa.Value) bool {
+				ld, ok := v.(*ssa.UnOp)
+				if !ok || ld.Op != token.MUL {
+					return false
 				}
-				bo, ok := iff.Cond.(*ssa.BinOp)
-				if !ok || bo.Op != token.NEQ || !isNilConst(bo.Y) || !isErrorType(bo.X.Type()) {
-					return
-				}
-				// the test that leads to the latch
-				if anyReach(iff.Block().Succs[0], isLatch) {
-					errNil = bo
-				}
-			})
-			if errNil == nil {
-				r.Fail("R6", "Conn.Write/latch-on-error", c.Pos(), "no `err != nil` test leads to the latch of the write error")
-				return
+				g, ok := ld.X.(*ssa.Global)
+				return ok && g.Name() == "ErrShortWrite"
 			}
-			exits := unreportedExits(mustCfg{c, isLatch, []excuse{{errNil, false}}})
-			r.Check(len(exits) == 0, "R6", "Conn.Write/latch-on-error", c.Pos(), "every failed or short underlying write is latched before returning", "a path returns after a failed underlying write without latching the error: the next Write would encrypt with a keystream the peer is no longer in step with")
-			// short write becomes an error: the error tested is a phi including io.ErrShortWrite
-			short := false
-			if bo, ok := errNil.(*ssa.BinOp); ok {
-				if ph, ok := bo.X.(*ssa.Phi); ok {
-					for _, e := range ph.Edges {
-						if ld, ok := e.(*ssa.UnOp); ok {
-							if g, ok := ld.X.(*ssa.Global); ok && g.Name() == "ErrShortWrite" {
-								short = true
-							}
+			var errLike func(v ssa.Value, d int) bool
+			errLike = func(v ssa.Value, d int) bool {
+				if d > 4 || v == nil {
+					return false
+				}
+				if errv != nil && v == errv {
+					return true
+				}
+				switch x := v.(type) {
+				case *ssa.Phi:
+					some := false
+					for _, e := range x.Edges {
+						if isShortGlobal(e) || isNilConst(e) {
+							continue
+						}
+						if !errLike(e, d+1) {
+							return false
+						}
+						some = true
+					}
+					return some
+				case *ssa.UnOp:
+					al, ok := x.X.(*ssa.Alloc)
+					if !ok || x.Op != token.MUL {
+						return false
+					}
+					var base *ssa.Store
+					for _, ref := range *al.Referrers() {
+						if st, ok := ref.(*ssa.Store); ok && st.Addr == ssa.Value(al) && errv != nil && st.Val == errv && instrDominates(st, x) {
+							base = st
 						}
 					}
+					if base == nil {
+						return false
+					}
+					for _, ref := range *al.Referrers() {
+						st, ok := ref.(*ssa.Store)
+						if !ok || st.Addr != ssa.Value(al) || st == base {
+							continue
+						}
+						if instrReaches(base, st) && instrReaches(st, x) && !isShortGlobal(st.Val) && st.Val != errv {
+							return false
+						}
+					}
+					return true
 				}
-				// named result: stored then loaded
-				if ld, ok := bo.X.(*ssa.UnOp); ok && ld.Op == token.MUL {
-					if al, ok := ld.X.(*ssa.Alloc); ok {
-						for _, ref := range *al.Referrers() {
-							if st, ok := ref.(*ssa.Store); ok {
-								if l2, ok := st.Val.(*ssa.UnOp); ok {
-									if g, ok := l2.X.(*ssa.Global); ok && g.Name() == "ErrShortWrite" {
-										short = true
+				return false
+			}
+			var excuses []excuse
+			short := false
+			allInstrs(w, func(i2 ssa.Instruction) {
+				switch y := i2.(type) {
+				case *ssa.BinOp:
+					if (y.Op == token.NEQ || y.Op == token.EQL) && isNilConst(y.Y) && errLike(y.X, 0) {
+						// excused on the edge where the error is nil
+						excuses = append(excuses, excuse{y, y.Op == token.EQL})
+					}
+				case *ssa.Store:
+					if _, ok := isStoreToField(y, errF); ok {
+						// what is latched: the write's error, with io.ErrShortWrite on the short-write path
+						var mentionsShort func(v ssa.Value, d int) bool
+						mentionsShort = func(v ssa.Value, d int) bool {
+							if d > 4 {
+								return false
+							}
+							if isShortGlobal(v) {
+								return true
+							}
+							switch z := v.(type) {
+							case *ssa.Phi:
+								for _, e := range z.Edges {
+									if mentionsShort(e, d+1) {
+										return true
+									}
+								}
+							case *ssa.UnOp:
+								if al, ok := z.X.(*ssa.Alloc); ok {
+									for _, ref := range *al.Referrers() {
+										if st, ok := ref.(*ssa.Store); ok && st.Addr == ssa.Value(al) && isShortGlobal(st.Val) {
+											return true
+										}
 									}
 								}
 							}
+							return false
+						}
+						if mentionsShort(y.Val, 0) {
+							short = true
 						}
 					}
 				}
+			})
+			if len(excuses) == 0 {
+				r.Fail("R6", "Conn.Write/latch-on-error", c.Pos(), "no test of the underlying write's error leads to the latch of the write error")
+				return
 			}
+			firstSeen := false
+			exits := unreportedExitsAny(c, func(i ssa.Instruction) bool {
+				if i == ssa.Instruction(c) {
+					// the exploration starts at the write; coming back to it around the loop is the next write
+					if !firstSeen {
+						firstSeen = true
+						return false
+					}
+					return true
+				}
+				return isLatch(i)
+			}, excuses)
+			r.Check(len(exits) == 0, "R6", "Conn.Write/latch-on-error", c.Pos(), "every failed or short underlying write is latched before returning", "a path returns after a failed underlying write without latching the error: the next Write would encrypt with a keystream the peer is no longer in step with")
 			n++
 			r.Check(short, "R6", "Conn.Write/short-write-is-error", c.Pos(), "a short underlying write is turned into an error (and latched)", "a short underlying write is no longer turned into an error")
 		})
